@@ -22,15 +22,15 @@ SPEC = {
                  "to_basic, to_python and validate on the same field options and values and comparing every outcome and value "
                  "(with exact types) inside Coq; a direct oracle checks determinism, idempotence, the round trip and an "
                  "independent re-statement of the declared constraints in both directions on the implementation alone. "
-                 "FilenameField and UrlField (coq/theories/FileFields.v, 9 of the 31 theorems): _validate modelled statement by "
+                 "FilenameField and UrlField (coq/theories/FileFields.v, 11 of the 33 theorems): _validate modelled statement by "
                  "statement over the StringField pipeline with the file system, the os.path algebra and urlparse as oracle "
                  "arguments; for ALL such oracles: exact acceptance and stored value (accepted iff the text passes the string "
                  "pipeline and is empty, or the existence mode None/True/False/dir/file holds of the resolved path; stored = the "
                  "resolved path: the text itself when absolute or no start directory, else abspath(expanduser(join(startdir, "
                  "text)))), soundness against file_meets, idempotence and the on-disk round trip under the only os.path fact "
                  "'abspath returns an absolute path' when the stored path passes the field's own string options unchanged "
-                 "(always so without string options), and a proved refutation otherwise (C05_file_validate_idem_refuted: "
-                 "startdir + transform_case); UrlField accepted iff urlparse succeeds with a non-empty scheme, idempotent outside "
+                 "(always so without string options; C05_filefields_idem_partial: everywhere outside known_F56 and F13), and a "
+                 "proved refutation inside the open finding F56 (C05_file_validate_idem_refuted: startdir + transform_case); UrlField accepted iff urlparse succeeds with a non-empty scheme, idempotent outside "
                  "F13. Tied to file_field.py / url_field.py by the `filefields` stream: real directory layouts with a decoy "
                  "working directory, per-case tables of the os.path / urlparse answers obtained directly."),
         "note": ("Trusted: Coq kernel + vm_compute; the correspondence harness; Python facts measured in notes/semantics.md "
@@ -74,10 +74,11 @@ SPEC = {
         "an unset (None) typed list/dict comes back as the empty container (allowed by property C02; lemma "
         "C05_unset_typed_container)",
         "'equal value' is structural equality with exact types (NaN equals NaN, -0.0 differs from 0.0)",
-        "FilenameField idempotence is FALSE when a start directory is combined with a string option the resolved path does "
-        "not satisfy or is changed by (transform_case, max_len/min_len/regex/choices, strip with a start directory ending in "
-        "white space): proved as C05_file_validate_idem_refuted, reported to the coordinator (same root cause as F49), not "
-        "exercised by the stream",
+        "FilenameField idempotence / round trip are stated outside the open finding F56: known_F56 f = a non-empty start "
+        "directory together with an inherited string option (transform_case / transform_strip / min_len / max_len / regex / "
+        "choices); C05_file_validate_idem_refuted proves the violation inside it; the `filefields` stream exercises the region "
+        "(each option x start directory x relative / absolute names x modes) and classifies an idempotence / round-trip failure "
+        "as F56 exactly when a start directory is set, the field carries a string option and the name is relative",
         "outside the model (Unmodelled, counted as may-unmodelled in the evidence): ChallengeField/"
         "SecureField/IncludeField (C03/C09), HostnameField(resolve=True), netmask-form CIDR, non-ASCII cased letters under a "
         "case transform, non-ASCII digits and fractional/exponent float text, non-canonical base64 text, float/tuple dict keys, "
